@@ -193,6 +193,14 @@ def r1_publish(ctx, cfg):
             and src_sl.has_call(PATH_DERIVE.pattern) is not None
         temp_derived = bool(src_sl) and (src_sl.has_call(PATH_DERIVE.pattern) or bool(src_sl.args))
         same = op_local(r.args[0]) is not None and (src_roots and dst_roots and src_roots == dst_roots)
+        # on EVERY definition path the source goes through a name derivation: the slices stop at derivation calls (they are not
+        # transparent), so a local shared by both slices is a way for the source to BE the destination (`if first_save { path } else
+        # { path.with_extension("tmp") }` writes the live file in place)
+        alias = sorted((src_roots & dst_roots)) if (src_sl is not None and dst_sl is not None) else []
+        ctx.check(not alias, rule, [b.id, "temp-never-final"], "no definition of the rename source reaches the destination path without a name derivation",
+                  "%s: on some path the file that is written and renamed IS the destination (the source path derives from the same value as the "
+                  "destination without passing with_extension / join / format!): the live file is rewritten in place and a crash leaves it torn" % b.id,
+                  r.loc(), sample={"rename": r.loc(), "shared_locals": [b.local_name(x) or x for x in alias][:4]})
         ctx.check(not same and temp_derived, rule, [b.id, "temp-distinct"], "rename source is a temp path distinct from the destination",
                   "%s renames a path onto itself / the source is not a derived temp name" % b.id, r.loc(),
                   sample={"rename": r.loc(), "source_derivation": [c.name for c in (src_sl.calls if src_sl else [])][:4]})
@@ -335,7 +343,51 @@ def r5_loaders(ctx, cfg):
                   sample={"filter": b.id, "string_constants": sorted(set(consts))[:8], "comparisons": len(cmp_calls)})
 
 
+REMOVE = re.compile(r"^std::fs::remove_file$|^tokio::fs::remove_file::remove_file$")
+
+
+def r6_delete_after_replace(ctx, cfg):
+    """generation rotation / replace-by-new-file: a saver that also deletes another state file (the previous generation) does so
+    only after the replacement has been written successfully; deleting first leaves a window (and every failed write) with no
+    valid state on disk"""
+    rule = "C06.R6"
+    ctx.rule(rule, "in a saver of persistent state, a remove_file of a path other than the one being written is dominated by the success edge "
+                   "of the write of the replacement")
+    from .lib import result_local
+    n = 0
+    for b in ctx.prog.bodies.values():
+        if b.krate not in cfg["krates"] or not re.search(cfg["state_modules"], b.file or "") or b.id in cfg.get("not_state", {}):
+            continue
+        ws = [c for c in b.calls if WRITE_WHOLE.search(c.name) or CREATE.search(c.name) or RENAME.search(c.name)]
+        ds = [c for c in b.calls if REMOVE.search(c.name)]
+        if not ws or not ds:
+            continue
+        ctx.saw(b)
+        own = set()
+        for w in ws:
+            own |= path_roots(b, w.args[0])[0]
+        ok_edges = set()
+        for w in ws:
+            rl, _ = result_local(b, w)
+            for (ebb, m, other, via) in enum_switches_through(b, rl):
+                if 0 in m:
+                    ok_edges.add(m[0])
+        for k, d in enumerate(ds):
+            roots = path_roots(b, d.args[0])[0]
+            if roots & own:
+                ctx.ok(rule, [b.id, "own-temp", d.bb], "removes the file being written (cleanup of its own temp)", d.loc(), nontrivial=False)
+                continue
+            n += 1
+            good = any(b.dominates(e, d.bb) for e in ok_edges)
+            ctx.check(good, rule, [b.id, "delete-after-write"], "the other state file is deleted only after the replacement was written",
+                      "%s deletes another state file (the previous generation) on a path that has not passed the successful write of the new one: "
+                      "a crash in between, or a failing write (disk full), leaves no valid state on disk - neither the old nor the new" % ctx._stable(b.id),
+                      d.loc(), sample={"remove": d.loc(), "writes": [w.loc() for w in ws]})
+    ctx.floor(rule, n, 1, "removals of a previous-generation state file in savers")
+
+
 def run(ctx, cfg=CFG):
+    r6_delete_after_replace(ctx, cfg)
     published = r1_publish(ctx, cfg)
     r3_in_place(ctx, cfg, published)
     r5_loaders(ctx, cfg)
